@@ -10,7 +10,7 @@ regenerates from `vls-core/src/policy/{simple_validator,validator}.rs` on every 
 by the preceding comparison in the code, so no overflow outcome is reachable: the generated bodies are total and
 the equalities need no precondition.
 -/
-namespace VlsModel.Props.C07Gen
+namespace VlsModel.Props.C07Fn
 open VlsModel VlsModel.Policy VlsModel.MutualClose
 
 def toV (p : Policy) : Gen.FnSimple.SimpleValidator :=
@@ -19,7 +19,7 @@ def toV (p : Policy) : Gen.FnSimple.SimpleValidator :=
                 max_feerate_per_kw := p.maxFeerate, dev_flags := none } }
 
 /-- first component of `outside_epsilon_range` = `outsideEps` (the second is the word used in the message) -/
-theorem C07_gen_outside_epsilon_range (p : Policy) (v0 v1 : Nat) :
+theorem C07_fn_outside_epsilon_range (p : Policy) (v0 v1 : Nat) :
     (toV p).outside_epsilon_range v0 v1
       = .ok (outsideEps p v0 v1, if v0 > v1 then "larger" else "smaller") := by
   unfold Gen.FnSimple.SimpleValidator.outside_epsilon_range outsideEps
@@ -36,7 +36,7 @@ def toES (e : EState) : Gen.FnEnforceVal.EnforcementState :=
   { current_holder_commit_info := e.curHolderInfo.map toCI,
     current_counterparty_commit_info := e.curCpInfo.map toCI }
 
-theorem C07_gen_minimum_to_holder_value (e : EState) (eps : Nat) :
+theorem C07_fn_minimum_to_holder_value (e : EState) (eps : Nat) :
     (toES e).minimum_to_holder_value eps = .ok (minToHolder e eps) := by
   unfold Gen.FnEnforceVal.EnforcementState.minimum_to_holder_value minToHolder minWithin
   cases h1 : e.curHolderInfo <;> cases h2 : e.curCpInfo <;> simp [toES, toCI, h1, h2]
@@ -47,7 +47,7 @@ theorem C07_gen_minimum_to_holder_value (e : EState) (eps : Nat) :
   · have a' : hi.toBroadcaster ≤ ci.toCountersigner := Nat.le_of_not_lt a
     by_cases b : ci.toCountersigner - hi.toBroadcaster ≤ eps <;> simp [a, a', b, Rs.usub] <;> omega
 
-theorem C07_gen_minimum_to_counterparty_value (e : EState) (eps : Nat) :
+theorem C07_fn_minimum_to_counterparty_value (e : EState) (eps : Nat) :
     (toES e).minimum_to_counterparty_value eps = .ok (minToCounterparty e eps) := by
   unfold Gen.FnEnforceVal.EnforcementState.minimum_to_counterparty_value minToCounterparty minWithin
   cases h1 : e.curHolderInfo <;> cases h2 : e.curCpInfo <;> simp [toES, toCI, h1, h2]
@@ -58,4 +58,4 @@ theorem C07_gen_minimum_to_counterparty_value (e : EState) (eps : Nat) :
   · have a' : hi.toCountersigner ≤ ci.toBroadcaster := Nat.le_of_not_lt a
     by_cases b : ci.toBroadcaster - hi.toCountersigner ≤ eps <;> simp [a, a', b, Rs.usub] <;> omega
 
-end VlsModel.Props.C07Gen
+end VlsModel.Props.C07Fn
